@@ -8,7 +8,8 @@ import FqModel.Cli
         (the entries of `_opt_cli_opts | to_entries` in that order, the five `_exit_code_*`)
   `parse <argv>` TAB `<P>`
         <argv> = `.` (empty) or hex strings joined by `,` (`-` = empty string; a trailing `*` marks an intended input file)
-        <P> = `ok rest=<list> parsed=<null | name=V;name=V…>` | `err:<enum>:<hex arg>`; V = `T` | `S:<hex>` | `A:<list>` |
+        <P> = `ok rest=<list> parsed=<null | name=V;name=V…>` | `err:<advisory class>:<hex message>` (the message text is NOT
+              compared: error-vs-success must agree and the message must mention the offending argument); V = `T` | `S:<hex>` | `A:<list>` |
               `P:<hex>+<hex>,…` | `O:<hexk>=<hexv>,…` (keys sorted)      — what the real `_args_parse` returned
   `meta <kind> <argvA> <argvB>` TAB `<PA> | <PB>`
         a theorem statement evaluated on the implementation: kind `same` (combined short flags, `--k=v` vs `--k v`, permuted
@@ -274,9 +275,41 @@ def stepRun (h : Hdr) (ws : List String) (obs : String) : String :=
 
 /-! ### parse / meta lines -/
 
+def isErrObs (o : String) : Bool := o.startsWith "err:"
+
+/-- the message of an `err:<class>:<hex message>` observation -/
+def errMsg (o : String) : Option Str :=
+  match o.splitOn ":" with
+  | ["err", _, m] => strOfHex m
+  | _ => none
+
+def isInfix (a : Str) : Str → Bool
+  | [] => a.isEmpty
+  | c :: cs => (a.isPrefixOf (c :: cs)) || isInfix a cs
+
+def errArg : Err → Str
+  | .noSuch a | .needsArg a | .needsTwo a | .takesNo a | .keyValue a => a
+  | _ => []
+
+/-- model result against the implementation's observation.  A success must match exactly.  For an error the
+    TEXT of the message is not compared and the harness' class is advisory: what must agree is error-vs-success
+    and that the message mentions the offending argument (robust to rewording). -/
+def parseAgree (m : Res) (obs : String) : Bool :=
+  match m with
+  | .ok _ => showRes m == obs
+  | .error .fuel => false
+  | .error e => match errMsg obs with
+    | some msg => isInfix (errArg e) msg
+    | none => false
+
+/-- two observations of `_args_parse` count as equal when they are the same success or both are errors -/
+def obsSame (a b : String) : Bool := a == b || (isErrObs a && isErrObs b)
+
 def stepParse (h : Hdr) (av : String) (obs : String) : String :=
   match parseArgv av with
-  | some (argv, _) => verdict (showRes (argsParse h.table argv)) obs
+  | some (argv, _) =>
+    let m := argsParse h.table argv
+    if parseAgree m obs then "OK" else s!"DIVERGE model={showRes m}"
   | none => "BADOP argv"
 
 /-- split `ok rest=… parsed=…` -/
@@ -290,11 +323,11 @@ def stepMeta (h : Hdr) (kind a b : String) (obs : String) : String :=
   | some (aa, _), some (ab, _), [oa, ob] =>
     let ma := argsParse h.table aa
     let mb := argsParse h.table ab
-    let div := if showRes ma != oa then s!" ;DIVERGE model={showRes ma}" else if showRes mb != ob then s!" ;DIVERGE model={showRes mb}" else ""
+    let div := if !parseAgree ma oa then s!" ;DIVERGE model={showRes ma}" else if !parseAgree mb ob then s!" ;DIVERGE model={showRes mb}" else ""
     if kind == "same" then
       -- hypotheses of the theorem: the model itself must equate the two command lines
       if showRes ma != showRes mb then "BADOP meta pair outside the theorem's hypotheses"
-      else if oa != ob then s!"PROPFAIL the two command lines parse differently{div}"
+      else if !obsSame oa ob then s!"PROPFAIL the two command lines parse differently{div}"
       else if div.isEmpty then "OK" else (div.drop 2).toString
     else if kind.startsWith "dd:" then
       match (kind.drop 3).toString.toNat?, mb with
@@ -310,7 +343,7 @@ def stepMeta (h : Hdr) (kind a b : String) (obs : String) : String :=
           | _, _ => s!"PROPFAIL `--` after a complete command line must not fail{div}"
       | some _, .error _ =>
         -- a prefix that already fails: the error is the result, whatever follows
-        if oa != ob then s!"PROPFAIL a failing prefix fails differently when `--` follows{div}"
+        if !(isErrObs oa && isErrObs ob) then s!"PROPFAIL a failing prefix must still fail when `--` follows{div}"
         else if div.isEmpty then "OK" else (div.drop 2).toString
       | _, _ => "BADOP dd"
     else "BADOP meta kind"
